@@ -30,7 +30,16 @@ def words_for(rng, n, awkward=0.4, exclude=''):
 
 def en_token(rng, word):
     return {'word': word, 'lemma': rng.choice([word.lower(), 'XX', 'be', word, '*', '']), 'pos': rng.choice(['NN', 'VBZ', 'DT', 'IN', ',', '.', 'XX', '_', 'PRP$', '-LRB-', '``']),
-            'entity': rng.choice(['O', 'I-PER', 'XX']), 'chunk': rng.choice(['I-NP', 'I-VP', 'XX'])}
+            'entity': rng.choice(['O', 'I-PER', 'XX']), 'chunk': rng.choice(['I-NP', 'I-VP', 'XX'])} if rng.random() < 0.8 else _with_extra(rng, {
+                'word': word, 'lemma': word.lower(), 'pos': 'NN', 'entity': 'O', 'chunk': 'I-NP'})
+
+
+def _with_extra(rng, t):
+    """tokens may carry further annotations of the caller's (a sense tag ...); names that a format uses for its own bookkeeping
+    (id, start, span, cat) are added only where the format under test does not use them"""
+    if rng.random() < 0.1:
+        t['sense'] = rng.choice(['s1', 'x&y', ''])
+    return t
 
 
 def en_token_sparse(rng, word):
@@ -44,7 +53,7 @@ def en_token_sparse(rng, word):
 
 def ja_token(rng, word):
     t = {'word': word, 'pos': rng.choice(['名詞', '動詞', 'noun']), 'pos1': rng.choice(['*', '一般', 'g']),
-         'pos2': '*', 'pos3': '*', 'inflectionForm': rng.choice(['*', '基本形']), 'inflectionType': rng.choice(['*', 'v5'])}
+         'pos2': rng.choice(['*', '*', '人名', 'p2']), 'pos3': rng.choice(['*', '*', '名', 'p3']), 'inflectionForm': rng.choice(['*', '基本形']), 'inflectionType': rng.choice(['*', 'v5'])}
     if rng.random() < 0.5:
         # '*' is what the Japanese tokenizer writes for a word without a dictionary form
         t['base'] = rng.choice([word, word, '*'])
